@@ -3,7 +3,9 @@ Range contract + repetition/interleaving history monitor + stream models."""
 from vp.models import prng
 
 ID = 'C20'
-RULE = ('one evaluation = one RandomBits(n, seed=s) call checked for type and '
+RULE = ('(plus: the same (n, seed) asked of every generator in a different '
+        'order per shard, values compared across shards in the parent) '
+        'one evaluation = one RandomBits(n, seed=s) call checked for type and '
         'range, re-issued after other generators ran (purity), and compared '
         'with the java.util.Random / truncated-LCG stream model where one '
         'exists; distinct by (generator, n, seed); non-trivial = every case')
@@ -111,6 +113,7 @@ def run(ctx, spec):
         last = {}
   _recheck(ctx, rrng, last, r)
   _ladders(ctx, spec, rrng, r, names)
+  _siblings(ctx, spec, rrng, names)
   try:
     ctx.sample({'generator': names[spec['part'] % len(names)], 'n': n,
                 'seed': seed})
@@ -169,6 +172,38 @@ def _ladders(ctx, spec, rrng, r, names):
                         {'name': name, 'n': n, 'seed': seed, 'sizes': sizes})
 
 
+SIB_NS = (64, 777, 4089, 4096, 4099, 8192, 20000, 65536)
+SIB_SEEDS = (1, 2 ** 64 + 1, 0xC0FFEE)
+
+
+def _siblings(ctx, spec, rrng, names):
+  """The same (n, seed) asked of every generator, in an order that differs
+  per shard (rotation by the shard number, reversed for odd shards).  The
+  values go to the parent, which demands that a generator's value does not
+  depend on which other generators served the same arguments before it."""
+  import hashlib
+  order = [x for x in names if not x.startswith(SLOW)]
+  k = spec['part'] % len(order)
+  order = order[k:] + order[:k]
+  if spec['part'] % 2:
+    order.reverse()
+  for seed in SIB_SEEDS:
+    for n in SIB_NS:
+      for name in order:
+        if not ctx.want('sib/%s/%d/%d' % (name, n, seed)):
+          continue
+        try:
+          v = rrng.GetRng(name).RandomBits(n, seed=seed)
+        except Exception as e:  # pylint: disable=broad-except
+          ctx.violation('randombits-raised-%s@%s' % (type(e).__name__, name),
+                        repr(e), {'name': name, 'n': n, 'seed': seed})
+          continue
+        ctx.count('sibling_calls')
+        ctx.record({'name': name, 'n': n, 'seed': seed, 'pos': order.index(
+            name), 'h': hashlib.blake2b(repr(v).encode(),
+                                        digest_size=12).hexdigest()})
+
+
 def _recheck(ctx, rrng, last, r):
   """Re-issues recorded calls in a different order (interleaving)."""
   keys = list(last)
@@ -206,5 +241,28 @@ def finalize(agg, tier):
       'model_comparisons', 'purity_rechecks', 'unseeded_calls_interleaved',
       'same_seed_ladders',
       'gen:java', 'gen:trunclcg64',
-      'gen:mt19937', 'gen:pcg64') if not c.get(k)]
-  return [], inc
+      'gen:mt19937', 'gen:pcg64', 'sibling_calls') if not c.get(k)]
+  viol, by = [], {}
+  for shard, r in agg['records']:
+    by.setdefault((r['name'], r['n'], r['seed']), []).append((shard, r))
+  compared = 0
+  for (name, n, seed), recs in sorted(by.items(), key=repr):
+    if name == 'urandom' or name.startswith('subsetsum') or len(recs) < 2:
+      continue
+    compared += 1
+    ref_shard, ref = recs[0]
+    for shard, r in recs[1:]:
+      if r['h'] != ref['h']:
+        viol.append({'mech': 'depends-on-other-generators@%s' % name,
+                     'msg': '%s.RandomBits(%s, seed=%s) differs between shard '
+                     '%s (called as number %d of the generators for these '
+                     'arguments) and shard %s (number %d)' % (
+                         name, n, seed, ref_shard, ref['pos'], shard,
+                         r['pos']),
+                     'data': {'name': name, 'n': n, 'seed': seed,
+                              'shards': [ref_shard, shard]}})
+        break
+  c['sibling_comparisons'] = compared
+  if not compared:
+    inc.append('no sibling comparison across shards')
+  return viol, inc
